@@ -432,8 +432,14 @@ def rule_match_columns(ctx, rep):
     rep.check("R-MATCH-COLUMNS", fn.qname, fn.loc(), ok, "line+columns", why or "match_location has no recognisable predicate")
     # helper predicates used by it keep their meaning
     sl = ctx.prog.func("codemodder.result.same_line")
-    t = unparse(sl.node)
-    ok = "pos.start.line == location.start.line" in t and "pos.end.line == location.end.line" in t
+    sp = sl.positional_params()
+    conds = _accepting(ctx, sl, depth=0)
+    ok = bool(conds) and len(sp) >= 2
+    for txt in conds:
+        # every way of answering True relates the start lines of both arguments and their end lines
+        both = all(f"{a}.{side}.line" in txt for a in sp[:2] for side in ("start", "end"))
+        if not both:
+            ok = False
     rep.check("R-MATCH-COLUMNS", sl.qname, sl.loc(), ok, "same_line", "same_line no longer compares both start and end line")
     # every override (result classes and transformers alike): each way of accepting a location constrains the columns too, unless
     # the override delegates to the default or belongs to the one documented line-only tool
